@@ -294,17 +294,31 @@ class Program:
         # functions that can only run on behalf of the context's destructor: every caller is the destructor or
         # another such function (least fixpoint). A guard type shared with the sweep (its Drop releases the block on
         # the unwinding path too) is NOT one of them - it stays an unanalysed helper below its callers.
-        only = {ctx_drop}
+        # (greatest fixpoint: a walker and its resume guard may call each other.) Not "only": whatever has a caller
+        # outside the destructor's reach, is externally callable, or has a caller that is not "only".
+        try:
+            from gcv.props import C03 as _c03
+            entry = {f["n"] for f in _c03.entry_points(self)}
+        except Exception:
+            entry = set()
+        notonly = set()
+        for n in reach:
+            if n == ctx_drop:
+                continue
+            cs = {x.caller for x in self.callers_of(n)} - {n}
+            if n in entry or not cs or any(c != ctx_drop and c not in reach for c in cs):
+                notonly.add(n)
         grew = True
         while grew:
             grew = False
             for n in reach:
-                if n in only:
+                if n in notonly or n == ctx_drop:
                     continue
                 cs = {x.caller for x in self.callers_of(n)} - {n}
-                if cs and all(c in only for c in cs):
-                    only.add(n)
+                if any(c in notonly for c in cs):
+                    notonly.add(n)
                     grew = True
+        only = (set(reach) - notonly) | {ctx_drop}
         out = set()
         for tgt in ("gc_ptr::GcPtr::dealloc", "gc_ptr::GcPtr::drop_in_place"):
             for e in self.callers_of(tgt):
